@@ -301,6 +301,26 @@ def _nonneg_guard(f, node):
 
 
 # --------------------------------------------------------------------------------------------------
+def _definite_walrus(e):
+    """names bound by `:=` in the parts of an expression that are evaluated unconditionally"""
+    out = set()
+    if isinstance(e, ast.NamedExpr):
+        out.add(e.target.id)
+        return out | _definite_walrus(e.value)
+    if isinstance(e, ast.BoolOp):
+        return _definite_walrus(e.values[0])
+    if isinstance(e, ast.IfExp):
+        return _definite_walrus(e.test)
+    if isinstance(e, ast.Compare):
+        return _definite_walrus(e.left) | _definite_walrus(e.comparators[0])
+    if isinstance(e, (ast.Lambda, ast.ListComp, ast.SetComp, ast.DictComp, ast.GeneratorExp)):
+        return out
+    for c in ast.iter_child_nodes(e):
+        if isinstance(c, ast.expr):
+            out |= _definite_walrus(c)
+    return out
+
+
 def unbound(ctx, f):
     from ..callgraph import local_names
     node = f.node
@@ -353,6 +373,8 @@ def unbound(ctx, f):
                         s.add(x.id)
         elif n.kind == "def":
             s.add(n.origin.name)
+        elif a is not None and n.kind in ("test", "return"):
+            s |= _definite_walrus(a)
         elif a is not None and n.kind in ("stmt",):
             for x in ast.walk(a):
                 if id(x) in nested_ids:
@@ -382,7 +404,7 @@ def unbound(ctx, f):
                     if isinstance(a.target, ast.Name) else list(ast.walk(a))
             else:
                 reads = list(ast.walk(a))
-        have = st[n.id]
+        have = st[n.id] | {x.target.id for x in reads if isinstance(x, ast.NamedExpr)}
         for x in reads:
             if isinstance(x, ast.Name) and isinstance(x.ctx, ast.Load) and x.id in locals_ and x.id not in have \
                     and id(x) not in nested_ids and x.id not in comp_names:
